@@ -71,6 +71,9 @@ impl BitmapEvent {
                         rle_32_decompress(&self.data, self.width as u32, self.height as u32, &mut result)?;
                         result
                     } else {
+                        if self.data.len() != self.width as usize * self.height as usize * 4 {
+                            return Err(Error::RdpError(RdpError::new(RdpErrorKind::InvalidSize, "Invalid size of uncompressed 32 bpp bitmap")))
+                        }
                         self.data
                     }
                 )
